@@ -243,37 +243,66 @@ Definition ring_wf (st : state) : bool :=
 End Hash.
 
 (* =================================================================== *)
-(* Re-announcement: what the client sends when a session opens.          *)
+(* Re-announcement: what the client sends when a session opens, and the
+   session manager's per-address bookkeeping (serverSessions). *)
 Inductive request := RegisterTM | RegisterRM (resource : bytes).
 
 Record client := {
   cl_resources : list bytes;        (* resource ids held by the resource managers' caches *)
-  cl_connected : bool
+  cl_cur : option bytes;            (* address of the open session; None = disconnected *)
+  cl_server : list (bytes * N);     (* serverSessions: address -> number of recorded sessions *)
+  cl_all : N                        (* allSessions: size of the registry used for selection *)
 }.
+Definition cl_connected (c : client) : bool := match cl_cur c with Some _ => true | None => false end.
 
 Inductive cevent :=
 | CRegisterResource (r : bytes)     (* RegisterResource: cached, announced once if connected *)
-| CConnLost                         (* OnClose / OnError: releaseSession *)
-| CReconnect.                       (* getty reconnects: OnOpen on a new session *)
+| CConnLost (by_peer : bool)        (* OnClose / OnError -> releaseSession; by_peer: the session is
+                                       already closed when it is released *)
+| CReconnect (a : bytes).           (* getty (re)connects to address a: OnOpen on a new session *)
 
-(* gettyClientHandler.OnOpen: registerSession, then RegisterTMRequest; nothing else *)
+(* gettyClientHandler.OnOpen: registerSession, then RegisterTMRequest; nothing else,
+   whatever the per-address map holds *)
 Definition on_open (c : client) : list request := [RegisterTM].
 
 (* what the property asks a new session to carry *)
 Definition on_open_required (c : client) : list request :=
   RegisterTM :: map RegisterRM (cl_resources c).
 
-(* requests written per event: (session generation they go to, request) *)
+Fixpoint cnt_upd (t : list (bytes * N)) (a : bytes) (f : N -> N) : list (bytes * N) :=
+  match t with
+  | [] => [(a, f 0)]
+  | (k, v) :: t' => if bytes_eqb k a then (k, f v) :: t' else (k, v) :: cnt_upd t' a f
+  end.
+Fixpoint cnt_of (t : list (bytes * N)) (a : bytes) : N :=
+  match t with
+  | [] => 0
+  | (k, v) :: t' => if bytes_eqb k a then v else cnt_of t' a
+  end.
+
 Definition cstep (c : client) (e : cevent) : client * list request :=
   match e with
   | CRegisterResource r =>
-      ({| cl_resources := cl_resources c ++ [r]; cl_connected := cl_connected c |},
+      ({| cl_resources := cl_resources c ++ [r]; cl_cur := cl_cur c; cl_server := cl_server c; cl_all := cl_all c |},
        if cl_connected c then [RegisterRM r] else [])
-  | CConnLost => ({| cl_resources := cl_resources c; cl_connected := false |}, [])
-  | CReconnect => ({| cl_resources := cl_resources c; cl_connected := true |}, on_open c)
+  | CConnLost by_peer =>
+      (* releaseSession: always dropped from allSessions; dropped from the per-address
+         map (and closed) only when it is still open: a peer-closed session stays recorded *)
+      match cl_cur c with
+      | None => (c, [])
+      | Some a =>
+          ({| cl_resources := cl_resources c; cl_cur := None;
+              cl_server := if by_peer then cl_server c else cnt_upd (cl_server c) a (fun v => v - 1);
+              cl_all := cl_all c - 1 |}, [])
+      end
+  | CReconnect a =>
+      ({| cl_resources := cl_resources c; cl_cur := Some a;
+          cl_server := cnt_upd (cl_server c) a (fun v => v + 1); cl_all := cl_all c + 1 |},
+       on_open c)
   end.
 
-Definition cinit : client := {| cl_resources := []; cl_connected := true |}.
+(* the client before its first connection *)
+Definition cinit : client := {| cl_resources := []; cl_cur := None; cl_server := []; cl_all := 0 |}.
 
 (* runs a history; returns the final client and, for every CReconnect in order,
    the requests written on the new session together with the client at that time *)
@@ -283,7 +312,7 @@ Fixpoint crun (c : client) (evs : list cevent) : client * list (client * list re
   | e :: evs' =>
       let '(c', out) := cstep c e in
       let '(cf, rest) := crun c' evs' in
-      (cf, match e with CReconnect => (c, out) :: rest | _ => rest end)
+      (cf, match e with CReconnect _ => (c, out) :: rest | _ => rest end)
   end.
 
 Definition req_eqb (a b : request) : bool :=
